@@ -909,6 +909,14 @@ func ikEnumerate(m *hmap.IntKeyMap, md map[int32]interface{}) error {
 			return fmt.Errorf("Keys() yields more than Size()=%d elements", len(md))
 		}
 		keys = append(keys, en.NextInt())
+		// lookups of other stored keys between two steps of the enumeration are not modifications either
+		if all := ikKeys(md); len(all) > 0 {
+			for j := 0; j < 3; j++ {
+				k := all[(i*5+j*7+3)%len(all)]
+				m.Get(k)
+				m.ContainsKey(k)
+			}
+		}
 		if i == 0 {
 			// other enumerations and a rendering started meanwhile are not modifications
 			if o := m.Values(); o.HasMoreElements() {
